@@ -20,6 +20,13 @@ sig    one generated callable (all parameter kinds, defaults that are opaque obj
        Oracle: inspect.signature(wrapped) == inspect.signature(orig), __name__, __doc__, __qualname__, __module__,
        __wrapped__, defaults / kw-defaults / annotations, parameter kinds of the generated `def` (modulo the known loss of
        `/`); original and wrapper bind every name to the identical object or both raise TypeError.
+ambient every call of an `exec` tree (root and nested, each recursion level) and every block / decorated call / whole program
+       of `tl` may carry `amb`: frames [kind, class] describing the CALLER's exception state at the moment of the call —
+       inside `except` handling an instance of the class, inside `finally` while it propagates, inside the `__exit__` of a
+       caller's context manager unwinding it, or after a handler that has completed ('past'); frames nest (a handler inside a
+       handler, a completed handler inside a live one).  The classes are drawn from the pool, half of the time from the
+       classes configured on the call's own count_exceptions wrappers (matching) and otherwise freely (matching or not).
+       The oracle is the same one: what the caller is handling is not something that escapes the wrapped code.
 Correspondence: outcome tag + exception id + metric deltas of `exec`; bind results of original, wrapper and the call
 through the wrapper, the NameError of decorate(), and the text of the generated source, of `sig`.
 """
@@ -70,6 +77,85 @@ def gen_group(rng, depth=0):
             leaves.append({'g': 'BaseExceptionGroup', 'l': ['KeyboardInterrupt', rng.choice(exc_leaves)]})
     rng.shuffle(leaves)
     return cls, leaves
+
+
+# ------------------------------------------------------------------------------------------------ ambient exception state
+AMB_KINDS = ['except', 'finally', 'exit', 'past']
+
+
+def amb_instance(cls):
+    if cls in GROUP_CLASSES:
+        return PYCLS[cls]('ambient', [KeyboardInterrupt('leaf') if cls == 'BaseExceptionGroup' else ValueError('leaf')])
+    return PYCLS[cls]('ambient')
+
+
+class _AmbientExit:
+    """a context manager of the CALLER whose __exit__ runs the rest while the exception unwinds through it"""
+
+    def __init__(self, frames, thunk):
+        self.frames, self.thunk, self.box = frames, thunk, []
+
+    def __enter__(self):
+        return self
+
+    def __exit__(self, typ, value, tb):
+        self.box.append(in_ambient(self.frames, self.thunk))
+        return True
+
+
+def in_ambient(frames, thunk):
+    """run thunk() while the interpreter's exception state is the one the frames describe (outermost first); the result is
+    ('r', value) | ('x', exception) of thunk itself — the ambient exceptions never reach the caller of in_ambient"""
+    if not frames:
+        try:
+            return ('r', thunk())
+        except BaseException as e:
+            return ('x', e)
+    kind, cls = frames[0]
+    amb = amb_instance(cls)
+    if kind == 'except':                  # the caller is handling amb
+        try:
+            raise amb
+        except BaseException:
+            return in_ambient(frames[1:], thunk)
+    if kind == 'finally':                 # amb is propagating through a finally clause of the caller
+        box = []
+        try:
+            try:
+                raise amb
+            finally:
+                box.append(in_ambient(frames[1:], thunk))
+        except BaseException as e:
+            if e is not amb:
+                raise
+        return box[0]
+    if kind == 'exit':                    # amb is unwinding through a with-block of the caller
+        cm = _AmbientExit(frames[1:], thunk)
+        with cm:
+            raise amb
+        return cm.box[0]
+    try:                                  # 'past': a handler that has completed; the state is the enclosing one again
+        raise amb
+    except BaseException:
+        pass
+    return in_ambient(frames[1:], thunk)
+
+
+def gen_ambient(rng, configured=()):
+    frames = []
+    for _ in range(rng.choice([1, 1, 1, 2, 2, 3])):
+        pool = list(configured) if configured and rng.random() < 0.5 else CLASSES + GROUP_CLASSES
+        frames.append([rng.choice(['except', 'except'] + AMB_KINDS), rng.choice(pool)])
+    return frames
+
+
+def amb_text(frames):
+    return ' > '.join('%s %s' % (k, c) for k, c in frames)
+
+
+def amb_live(frames):
+    """classes of the exceptions that are current (being handled / propagating) at the moment of the call, innermost first"""
+    return [c for k, c in reversed(frames) if k != 'past']
 
 
 OBS_KEYS = ['S0', 'S1', 'H0', 'H1']      # observe-timed metrics: summary plain / child, histogram plain / child
@@ -580,7 +666,11 @@ def gen_call(rng, depth, ids, shared_ok=False, maxrec=4):
     spec = gen_spec(rng, rich=False)
     spec['mkind'] = 'function'
     calls = gen_calls(rng, spec, n_valid=1, n_invalid=0, clash=False)
-    return {'ws': ws, 'body': body, 'spec': spec, 'args': [calls[0][0], [list(x) for x in calls[0][1]]]}
+    call = {'ws': ws, 'body': body, 'spec': spec, 'args': [calls[0][0], [list(x) for x in calls[0][1]]]}
+    if rng.random() < (0.4 if depth == 0 else 0.25):
+        configured = [c for w in ws if w['t'] == 'E' for c in (['Exception'] if w['cls'] == 'default' else w['cls'])]
+        call['amb'] = gen_ambient(rng, configured)
+    return call
 
 
 def gen_clock(rng, n):
@@ -670,6 +760,7 @@ class Runner:
         self.problems = []    # (signature, what)
         self.nodes = []
         self.uses_shared = set()
+        self.ambient_calls = []   # (node id, frames) per call made under an ambient exception state
 
     def outcome_obj(self, o):
         if o[1] not in self.objs:
@@ -737,7 +828,16 @@ class Runner:
 
     def invoke(self, node):
         pos, kw = node.call['args']
-        return node.fn(*[Obj(-i) for i in pos], **{k: Obj(-i) for k, i in kw})
+        args, kwargs = [Obj(-i) for i in pos], {k: Obj(-i) for k, i in kw}
+        amb = node.call.get('amb')
+        if not amb:
+            return node.fn(*args, **kwargs)
+        # the call is made while the CALLER is handling / unwinding other exceptions; the call's own outcome is handed on
+        self.ambient_calls.append((node.nid, amb))
+        got = in_ambient(amb, lambda: node.fn(*args, **kwargs))
+        if got[0] == 'x':
+            raise got[1]
+        return got[1]
 
     def run_body(self, node):
         self.stack.append(node)
@@ -919,14 +1019,28 @@ def run_exec_case(ctx, case, reqs, pend):
         if after[k] - before[k] != counts[k]:
             esc = sorted({repr(e[2]) for e in runner.events if e[0] == 'exit' and e[2] is not None})
             cfg = [w['cls'] for n in runner.nodes for w in n.call['ws'] if w['t'] == 'E' and w['c'] == k]
-            fails.append(('C16:exception-count', 'counter %s went up by %s, but %d guarded calls let an isinstance of their configured classes %s escape (escaping: %s)' % (
-                k, after[k] - before[k], counts[k], cfg, ', '.join(esc)[:300])))
+            ambs = ['call %d made inside [%s]' % (nid, amb_text(fr)) for nid, fr in runner.ambient_calls
+                    if any(w['t'] == 'E' and w['c'] == k for w in runner.nodes[nid].call['ws'])]
+            fails.append(('C16:exception-count', 'counter %s went up by %s, but %d guarded calls let an isinstance of their configured classes %s escape (escaping: %s)%s' % (
+                k, after[k] - before[k], counts[k], cfg, ', '.join(esc)[:300] or 'nothing',
+                '; exceptions the CALLER was handling at the time of a guarded call do not escape the wrapped code: ' + '; '.join(ambs[:4]) if ambs else '')))
     for sig, what in fails[:3]:
         report(ctx, sig, what, case)
     toks = enc_tree(tree, [0])
     tree_s = ','.join(toks)
-    ctx.case(nontrivial_key=('exec', tree_s, tuple(case['clock'])) if len(toks) > 5 else None,
-             sample={'tree': tree_s, 'clock': case['clock'], 'outcome': exp, 'observed': {k: list(v) for k, v in obs.items() if v[0]}})
+    amb_s = ';'.join('%d:%s' % (nid, amb_text(fr)) for nid, fr in sorted({(nid, tuple(map(tuple, fr))) for nid, fr in runner.ambient_calls}))
+    ctx.case(nontrivial_key=('exec', tree_s, tuple(case['clock']), amb_s) if len(toks) > 5 else None,
+             sample=dict({'tree': tree_s, 'clock': case['clock'], 'outcome': exp, 'observed': {k: list(v) for k, v in obs.items() if v[0]}},
+                         **({'ambient': amb_s} if amb_s else {})))
+    for nid, fr in runner.ambient_calls:
+        ctx.count('exec:ambient-calls')
+        for kind, _ in fr:
+            ctx.count('exec:ambient:' + kind)
+        live = tuple(PYCLS[c] for c in amb_live(fr))
+        for w in runner.nodes[nid].call['ws']:
+            if w['t'] == 'E' and live:
+                cl = (Exception,) if w['cls'] == 'default' else tuple(PYCLS[x] for x in w['cls'])
+                ctx.count('exec:ambient-guarded-call:handled-%s-configured' % ('matches' if any(issubclass(c, cl) for c in live) else 'outside'))
     ctx.count('exec:outcome:' + (exp[2] if exp[0] == 'x' else 'return'))
     ctx.count('exec:timed-calls', sum(len(v) for v in durations.values()))
     ctx.count('exec:depth-recursion', 1 if 'R' in toks else 0)
@@ -1060,6 +1174,7 @@ class TLRunner:
         self.pending = []
         self.decos = []
         self.fns = []
+        self.n_amb = 0
         for ref in case['decos']:
             T = self.w.obj(ref).time()
             self.decos.append(T)
@@ -1081,6 +1196,12 @@ class TLRunner:
         return self.obj(out)
 
     def run_stmt(self, st, env):
+        if st[0] == 'A':      # ['A', frames, stmt]: the statement runs under an ambient exception state of the caller
+            self.n_amb += 1
+            got = in_ambient(st[1], lambda: self.run_stmt(st[2], env))
+            if got[0] == 'x':
+                raise got[1]
+            return
         if st[0] in ('L', 'D'):
             timer, key = (env[st[1]][0], ('blk', env[st[1]][1])) if st[0] == 'L' else (self.decos[st[1]], ('deco', st[1]))
             args = [tl_value(v) for v in st[2]]
@@ -1123,10 +1244,9 @@ class TLRunner:
         saved = cmod.default_timer
         cmod.default_timer = FakeTimer(self.case['clock'], self.events)
         try:
-            try:
-                got = ('r', self.run_prog(self.case['prog'], self.case['out'], []))
-            except BaseException as e:
-                got = ('x', e)
+            if self.case.get('amb'):
+                self.n_amb += 1
+            got = in_ambient(self.case.get('amb') or [], lambda: self.run_prog(self.case['prog'], self.case['out'], []))
         finally:
             cmod.default_timer = saved
         return got
@@ -1235,6 +1355,8 @@ def tl_enc_out(o):
 def tl_enc_prog(prog):
     toks = [str(len(prog))]
     for st in prog:
+        if st[0] == 'A':      # the model's program is the one without the caller's exception state
+            st = st[2]
         if st[0] in ('L', 'D'):
             toks += [st[0], str(st[1]), str(len(st[2]))] + [str(v) for v in st[2]] + [str(len(st[3]))]
             for n, v in st[3]:
@@ -1283,6 +1405,7 @@ def run_tl_case(ctx, case, reqs, pend):
              sample={'program': enc, 'clock': case['clock'], 'observed': {'.'.join(map(str, k)): v for k, v in expected.items()}})
     ctx.count('tl:blocks', runner.nb)
     ctx.count('tl:labels-calls', nlab)
+    ctx.count('tl:ambient-statements', runner.n_amb)
     ctx.count('tl:labels-calls-raising', sum(1 for e in runner.events if e[0] == 'labels' and e[4][0] == 'x'))
     ctx.count('tl:unlabelled-parent-raises-at-exit', unl)
     ctx.count('tl:unlabelled-parent-replaces-body-exception',
@@ -1390,10 +1513,13 @@ def tl_gen_prog(rng, depth, env, decos, ids, top=False):
             else:
                 ref = tl_gen_ref(rng)
                 prog.append(['W', ref, sw, tl_gen_prog(rng, depth + 1, [ref[1]] + env, decos, ids), tl_gen_out(rng, ids)])
+            if rng.random() < 0.25:
+                prog[-1] = ['A', gen_ambient(rng), prog[-1]]
     return prog
 
 
 def tl_count_blocks(prog):
+    prog = [st[2] if st[0] == 'A' else st for st in prog]
     return sum(1 + tl_count_blocks(st[3]) for st in prog if st[0] in ('W', 'F'))
 
 
@@ -1401,7 +1527,10 @@ def gen_tl_case(rng):
     decos = [tl_gen_ref(rng) for _ in range(rng.choice([0, 1, 1, 2]))]
     ids = [0]
     prog = tl_gen_prog(rng, 0, [], decos, ids, top=True)
-    return {'kind': 'tl', 'decos': decos, 'prog': prog, 'out': tl_gen_out(rng, ids), 'clock': gen_clock(rng, 2 * tl_count_blocks(prog) + 1)}
+    case = {'kind': 'tl', 'decos': decos, 'prog': prog, 'out': tl_gen_out(rng, ids), 'clock': gen_clock(rng, 2 * tl_count_blocks(prog) + 1)}
+    if rng.random() < 0.2:
+        case['amb'] = gen_ambient(rng)
+    return case
 
 
 def corpus_tl():
@@ -1492,8 +1621,11 @@ def E(c, cls='default', use='dec'):
     return {'t': 'E', 'c': c, 'cls': cls, 'use': use}
 
 
-def CALL(ws, body, spec=None, args=None):
-    return {'ws': ws, 'body': body, 'spec': spec or F(), 'args': args or [[], []]}
+def CALL(ws, body, spec=None, args=None, amb=None):
+    c = {'ws': ws, 'body': body, 'spec': spec or F(), 'args': args or [[], []]}
+    if amb:
+        c['amb'] = amb
+    return c
 
 
 def corpus_exec():
@@ -1542,6 +1674,25 @@ def corpus_exec():
         {'tree': CALL([E('K0', ['ValueError', 'LookupError']), E('K1', ['KeyError', 'BaseExceptionGroup'], 'cm')],
                       nest([CALL([E('K0', ['KeyError'])], out(['x', 1, 'BaseExceptionGroup', ['KeyboardInterrupt', 'KeyError']]))], ['r', 2])), 'clock': []},
     ] if HAVE_GROUPS else []) + [
+        # ambient exception state: the call is made while the CALLER handles / unwinds an exception; only what escapes the
+        # wrapped code counts — a successful call in a handler (cleanup / retry path), matching and not matching classes
+        {'tree': CALL([E('K0')], out(['r', 1]), amb=[['except', 'ValueError']]), 'clock': []},
+        {'tree': CALL([E('K0', ['KeyError'])], out(['r', 1]), amb=[['except', 'ValueError']]), 'clock': [], 'prior': {'K0': 2}},
+        {'tree': CALL([E('K1', ['KeyError'], 'cm')], out(['r', 1]), amb=[['except', 'KeyError']]), 'clock': []},
+        {'tree': CALL([E('K1', ['ValueError', 'LookupError'])], out(['r', 1]), amb=[['finally', 'KeyError']]), 'clock': []},
+        {'tree': CALL([E('K0', ['BaseException'])], out(['r', 1]), amb=[['exit', 'KeyboardInterrupt']]), 'clock': []},
+        {'tree': CALL([E('K0')], out(['r', 1]), amb=[['except', 'SystemExit'], ['except', 'ValueError'], ['past', 'KeyError']]), 'clock': []},
+        {'tree': CALL([E('K0')], out(['r', 1]), amb=[['past', 'ValueError']]), 'clock': []},
+        # the call raises inside the handler: counted once by its own class, whatever the caller was handling
+        {'tree': CALL([E('K0', ['KeyError'])], out(['x', 1, 'ValueError']), amb=[['except', 'KeyError']]), 'clock': []},
+        {'tree': CALL([E('K0', ['KeyError']), E('K1')], out(['x', 1, 'KeyError']), amb=[['finally', 'KeyError']]), 'clock': []},
+        # retry: the first call raises and is swallowed, the second call of the same guard succeeds inside a handler;
+        # nested guarded calls, timers and trackers under an ambient state
+        {'tree': CALL([], nest([CALL([E('K0', ['LookupError'])], out(['x', 1, 'KeyError'])),
+                                CALL([E('K0', ['LookupError'])], out(['r', 2]), amb=[['except', 'KeyError']])], ['r', 3], True)), 'clock': []},
+        {'tree': CALL([E('K0'), I('P0'), T('S0')], nest([CALL([E('K0'), I('P0', 'cm'), T('H0', 'new')], rec(2, ['r', 1]), amb=[['except', 'ValueError'], ['finally', 'KeyError']])],
+                                                       ['x', 2, 'GeneratorExit']), amb=[['exit', 'LookupError']]),
+         'clock': [1, 2, 3, 5, 8, 13, 21, 34], 'prior': {'P0': 2}},
         # all three stacked, nested calls, an earlier sibling raising skips the later ones
         {'tree': CALL([E('K0'), I('P0'), T('S0')], nest([CALL([T('S0'), I('P0')], out(['r', 1])),
                                                        CALL([E('K0', ['ValueError']), T('S0', 'new')], out(['x', 2, 'ValueError'])),
@@ -1644,7 +1795,11 @@ def run(ctx):
                 'still, falling, random walk, exhausted); sig: random ArgSpecs (0-2 positional-only, 0-3 positional, defaults, '
                 '*args, 0-2 keyword-only, kw-defaults, **kw, annotations, doc, function/method/classmethod/staticmethod) x 10 wrapper '
                 'kinds x 12 call shapes derived from the ArgSpec (8 meant to bind, 4 near misses); a case is non-trivial when the '
-                'tree has at least one wrapper or nested call / for sig always; distinct by (tree, clock) / (spec, call, wrapper); '
+                'tree has at least one wrapper or nested call / for sig always; distinct by (tree, clock, ambient) / (spec, call, wrapper); '
+                'ambient: 40 % of root calls, 25 % of nested calls (every recursion level), 25 % of tl blocks / decorated calls and '
+                '20 % of tl programs run under 1-3 nested frames of the caller (inside except / inside finally during propagation / '
+                'inside __exit__ of a with-block unwinding / after a completed handler) x any of the 8 (+3 group) classes, half of them '
+                'drawn from the classes configured on the call\'s own count_exceptions wrappers; '
                 'tl: random Timer.labels programs (0-2 decorator-level timers and with-blocks on labelled Summary/Histogram/Gauge '
                 'parents, plain metrics and children; per block 0-3 statements out of t.labels()/T.labels() by position or keyword, '
                 'valid or wrong count/name/both kinds, on the own, an outer or the decorator-level timer, nested blocks and decorated '
